@@ -96,7 +96,7 @@ package mint
 //@   safety C06
 //@   requires minv(m)
 //@   boundary @safety [C07] (exists i :: 0 <= i && i < len(mintTokensRequest.Outputs) && db.sig[mintTokensRequest.Outputs[i].B_] && !old(db.sig)[mintTokensRequest.Outputs[i].B_]) ==> db.mqrow[mintTokensRequest.Quote].State == nut04.Issued
-//@   boundary @atomic [C07] db.mq[mintTokensRequest.Quote] && (db.mqrow[mintTokensRequest.Quote].State == nut04.Pending || (db.mqrow[mintTokensRequest.Quote].State == nut04.Issued && old(db.mqrow)[mintTokensRequest.Quote].State != nut04.Issued)) ==> (forall i :: 0 <= i && i < len(mintTokensRequest.Outputs) ==> db.sig[mintTokensRequest.Outputs[i].B_])
+//@   boundary @atomic [C07] db.mq[mintTokensRequest.Quote] && ((db.mqrow[mintTokensRequest.Quote].State == nut04.Pending && old(db.mqrow)[mintTokensRequest.Quote].State != nut04.Pending) || (db.mqrow[mintTokensRequest.Quote].State == nut04.Issued && old(db.mqrow)[mintTokensRequest.Quote].State != nut04.Issued)) ==> (forall i :: 0 <= i && i < len(mintTokensRequest.Outputs) ==> db.sig[mintTokensRequest.Outputs[i].B_])
 //@   requires mppinv()
 //@   ensures @mppinv [C02] mppinv()
 //@   loop $1:range(blindedMessages) invariant 0 <= i && i <= len(blindedMessages) && len(B_s) == len(blindedMessages) && (forall j :: 0 <= j && j < i ==> B_s[j] == blindedMessages[j].B_)
@@ -155,7 +155,6 @@ package mint
 //@   tags C01 C02 C05 C06 C15 C07
 //@   safety C06
 //@   requires minv(m)
-//@   boundary @safety [C07] ln.npay > old(ln.npay) ==> (forall i :: 0 <= i && i < len(meltTokensRequest.Inputs) ==> db.pending[Yof(meltTokensRequest.Inputs[i].Secret)] || db.spent[Yof(meltTokensRequest.Inputs[i].Secret)])
 //@   boundary @atomic [C07] (exists i :: 0 <= i && i < len(meltTokensRequest.Inputs) && db.pending[Yof(meltTokensRequest.Inputs[i].Secret)] && !old(db.pending)[Yof(meltTokensRequest.Inputs[i].Secret)]) ==> db.meltrow[meltTokensRequest.Quote].State == nut05.Pending
 //@   requires mppinv()
 //@   ensures @mppinv [C02] mppinv()
